@@ -49,7 +49,12 @@ def _rig(kind, pdo_no, subs, dev=None):
     return net, node, dev, m, ci, mi
 
 
-def save_read(kind, pdo_no, k, subs, dev_start, custom):
+WIDE = {"i64": [(C.TYPE_INDEX[0x15], 0, 64, False)],
+        "u32x2": [(C.TYPE_INDEX[0x07], 0, 32, False), (C.TYPE_INDEX[0x04], 0, 32, False)],
+        "r64": [(C.TYPE_INDEX[0x11], 0, 64, False)]}
+
+
+def save_read(kind, pdo_no, k, subs, dev_start, custom, wide=None):
     subs = tuple(subs)
     net, node, dev, m, ci, mi = _rig(kind, pdo_no, subs)
     if dev_start == "enabled-other":
@@ -81,8 +86,9 @@ def save_read(kind, pdo_no, k, subs, dev_start, custom):
     m.clear()
     entries = []
     total = 0
+    pool = WIDE[wide] if wide else POOL
     for i in range(k):
-        idx, sub, own, cust = POOL[i % len(POOL)]
+        idx, sub, own, cust = pool[i % len(pool)]
         if cust and custom:
             ln = sx.fresh_int("len%d" % i, 1, 8)
             m.add_variable(idx, sub, ln)
@@ -247,6 +253,9 @@ def jobs(tier):
                         for custom in ((1,) if k else (0,)):
                             out.append(dict(func="save_read", params=dict(kind=kind, pdo_no=pdo_no, k=k, subs=list(subs),
                                                                          dev_start=start, custom=custom), weight=k + 1))
+        for wide, k in (("i64", 1), ("u32x2", 2), ("r64", 1)):
+            out.append(dict(func="save_read", params=dict(kind=kind, pdo_no=1, k=k, subs=[1, 2], dev_start="blank",
+                                                         custom=0, wide=wide)))
         for src in ("value", "default"):
             out.append(dict(func="read_from_od", params=dict(kind=kind, source=src)))
     out.append(dict(func="predefined", params={}))
